@@ -13,7 +13,7 @@ from .aggrun import GROUPS, KEYS, agg_class, agg_paths, call, evaluate_subject, 
 from .fsrun import FS, LockV, PathV
 
 INFO = {
-    "explanation": "Rounds 4/5: (R16.6) every raw acquire() is directly followed by try/finally releasing the same lock(s) (or the lock is taken through `with`); (R16.8) histories of three worker copies of one aggregator. LOCKSET analysis on abstract runs of the concurrently callable methods (evaluate, _save_one_subject via evaluate, make_statistic) over the abstract file system: every file operation is logged with the locks held and the acquisition it belongs to. (R16.1) every access to the claim file holds inevalfilelock and every access to the output file holds filelock; (R16.2) the read of the claims, the duplicate test and the claim write belong to ONE acquisition of the claim lock, a duplicate name returns without evaluating or writing, and the evaluator runs only after the claim is written; (R16.3) one subject = one appended row, written under filelock in one acquisition; (R16.4) the lock-order graph over all runs is acyclic and (R16.5) no lock is re-acquired while held (the locks are not re-entrant); no lock is held while the evaluator runs; (R16.6) both locks are module-level multiprocessing.Lock objects created at import and the start method is set to fork on posix, locks are taken through `with` only (released on every exit); (R16.7) make_statistic reads the output file under filelock; (R16.8) three copies of one aggregator (forked: handles and offsets shared; pickled: handles dropped) evaluating n1, n2, n1 in turn record n1 once. Further delegated: R15.6/R05.5/R15.7 (objects shared by the threads of one aggregator keep no per-call state). Round 6: R17.8 (names are recognised when the claim and output files are read back, incl. embedded line breaks) and R15.6-through-callees are delegated here; D17 (lone carriage return in a subject name) is a known finding. Round 7: R16.6 also knows `ok = x.acquire(...)` and `if not x.acquire(...): raise` as acquisitions.",
+    "explanation": "Rounds 4/5: (R16.6) every raw acquire() is directly followed by try/finally releasing the same lock(s) (or the lock is taken through `with`); (R16.8) histories of three worker copies of one aggregator. LOCKSET analysis on abstract runs of the concurrently callable methods (evaluate, _save_one_subject via evaluate, make_statistic) over the abstract file system: every file operation is logged with the locks held and the acquisition it belongs to. (R16.1) every access to the claim file holds inevalfilelock and every access to the output file holds filelock; (R16.2) the read of the claims, the duplicate test and the claim write belong to ONE acquisition of the claim lock, a duplicate name returns without evaluating or writing, and the evaluator runs only after the claim is written; (R16.3) one subject = one appended row, written under filelock in one acquisition; (R16.4) the lock-order graph over all runs is acyclic and (R16.5) no lock is re-acquired while held (the locks are not re-entrant); no lock is held while the evaluator runs; (R16.6) both locks are module-level multiprocessing.Lock objects created at import and the start method is set to fork on posix, locks are taken through `with` only (released on every exit); (R16.7) make_statistic reads the output file under filelock; (R16.8) three copies of one aggregator (forked: handles and offsets shared; pickled: handles dropped) evaluating n1, n2, n1 in turn record n1 once. Further delegated: R15.6/R05.5/R15.7 (objects shared by the threads of one aggregator keep no per-call state). Round 6: R17.8 (names are recognised when the claim and output files are read back, incl. embedded line breaks) and R15.6-through-callees are delegated here; D17 (lone carriage return in a subject name) is a known finding. Round 7: R16.6 also knows `ok = x.acquire(...)` and `if not x.acquire(...): raise` as acquisitions. Round 9: R15.6 covers the helper objects the aggregator keeps: a row buffer computed once and filled outside the lock is shared state.",
     "trusted_base": ["a multiprocessing.Lock created at import is shared by threads and by forked children", "a row appended and closed inside the lock is complete before the lock is released", "OS file append semantics"],
     "assumptions": ["workers are threads or forked processes of the process that imported the module"],
     "not_decided": ["exactly-once under real schedules is a consequence argued from the discipline, not observed", "spawn start method (Windows) - the module itself warns about it"],
